@@ -417,7 +417,8 @@ Section Paths.
   Proof.
     unfold xonly, elem_ok. intros ctx selfkey revkey sig ls cb L1 L2 L3 L4 L5 Hp.
     unfold taproot_commit_spend_revoke. tap_go Hp. unfold taproot_local_commit_revoke_script.
-    destruct (checksig sc Tapscript revkey sig (tap_budget [sig; ls; cb])) as [[|] bud| |] eqn:E;
+    match goal with |- context [mkSt _ _ ?b] =>
+      destruct (checksig sc Tapscript revkey sig b) as [[|] bud| |] eqn:E end;
       run_steps; scbn; try discriminate.
     intros _. eapply checksig_tap_true_inv; exact E.
   Qed.
